@@ -400,6 +400,100 @@ def fresh_pool(n):
     return multiprocessing.get_context("fork").Pool(n)
 
 
+# ------------------------------------------------------------------ history = other calls of the same primitive
+
+_CASES = {}
+
+
+def _cases_for(spec_name, limit):
+    """Catalogue leaves of one spec (at most `limit`, evenly spaced over at most the first 12000 of its configuration space).
+    Built once in the pristine pool worker (construction runs no autograd code); forked children inherit the list."""
+    key = (spec_name, limit)
+    if key in _CASES:
+        return _CASES[key]
+    from ..catalog.base import Tier
+    from ..judges import load_catalog
+    from ..explore import Skip, leaves as all_leaves
+    fn, fam = load_catalog()[spec_name]
+    T = Tier(True, 0, reduced=(fam not in ("F", "L")), cplx=(fam == "F"))
+    cases = []
+
+    def h(ch):
+        Tk = T.at(0)
+        if T.cplx:
+            Tk.pattern = ch.choose("complex_operands", ["rc", "c"])
+        case = fn(ch, Tk)
+        if case is None:
+            raise Skip("declined")
+        return case
+
+    for ch, out in all_leaves(h, max_leaves=12000):
+        if not isinstance(out, Skip):
+            cases.append(out)
+    if len(cases) > limit:
+        step = len(cases) / float(limit)
+        cases = [cases[int(k * step)] for k in range(limit)]
+    _CASES[key] = cases
+    return cases
+
+
+def _leaf_results(spec_name, limit, order, only=None):
+    """Reverse-mode gradients of the selected leaves, computed one after the other in THIS process."""
+    import hashlib
+    import numpy as onp
+    from .. import walk as W
+    from ..oracles import realify
+    cases = _cases_for(spec_name, limit)
+    idx = list(range(len(cases))) if only is None else [i for i in only if i < len(cases)]
+    if order == "reversed":
+        idx.reverse()
+    A = W.ag()
+    res = {}
+    with warnings.catch_warnings():
+        warnings.simplefilter("ignore")
+        with onp.errstate(all="ignore"):
+            for i in idx:
+                case = cases[i]
+                f = case.fn()
+                vals = [case.ops[n] for n in case.ops]
+                try:
+                    vjp, val = A["autograd"].make_vjp(lambda *a: f(A["anp"], *a), 0)(*vals)
+                    g = vjp(A["vspace"](val).ones())
+                    r = hashlib.sha1(realify(g).tobytes() + realify(val).tobytes()).hexdigest()[:16]
+                except Exception as e:
+                    r = "EXC:" + type(e).__name__
+                res[i] = r
+    return res
+
+
+def _describe(spec_name, limit, i):
+    import numpy as onp
+    case = _cases_for(spec_name, limit)[i]
+    return "%s with operands %r" % (case.expr, [(list(onp.shape(v)), str(getattr(v, "dtype", type(v).__name__))) for v in case.ops.values()])
+
+
+def catalog_history_job(args):
+    """Pristine pool worker.  (a) every selected leaf of the spec sequentially in one fork, in forward and in reversed order: a
+    result that depends on which calls came earlier differs between the two passes;  (b) a few leaves alone in fresh forks;
+    (c) every leaf that differs anywhere is re-run alone in a fresh fork to name the correct value."""
+    spec_name, limit, nsingle = args
+    cases = _cases_for(spec_name, limit)
+    seq = isolated(_leaf_results, spec_name, limit, "forward")
+    rev = isolated(_leaf_results, spec_name, limit, "reversed")
+    n = len(cases)
+    singles = sorted(set(int(k * n / float(nsingle)) for k in range(nsingle))) if n else []
+    suspects = [i for i in seq if rev.get(i) != seq[i]]
+    alone = {}
+    for i in sorted(set(singles) | set(suspects[:20])):
+        alone[i] = isolated(_leaf_results, spec_name, limit, "forward", [i]).get(i)
+    bad = []
+    for i, r in alone.items():
+        for name, other in (("after-earlier-calls", seq), ("after-later-calls", rev)):
+            if other.get(i) != r:
+                bad.append((name, i, _describe(spec_name, limit, i), other.get(i), r))
+    return spec_name, n, len(alone), bad
+
+
 def seeds(quick):
     fail = ["nest", 1, "r", ["fwd", 1, 1], None]
     fail3 = ["nest", 3, "rrr", ["fwd", 3, 1], None]
@@ -488,6 +582,21 @@ def run(ctx):
             frontier = nxt
             if not frontier:
                 break
+    # ---- history made of other calls of the same primitive (all catalogue specs, reduced shapes)
+    from ..judges import load_catalog
+    specs = sorted(load_catalog())
+    limit = 500 if ctx.quick else 4000
+    ncat = nalone = 0
+    with fresh_pool(ctx.ncpu) as pool:
+        for spec_name, n, na, bad in pool.imap_unordered(catalog_history_job, [(sn, limit, 6 if ctx.quick else 20) for sn in specs]):
+            ncat += n
+            nalone += na
+            for name, i, key, got, want in bad[:3]:
+                rep.violations.append(violation(PROP, "catalog-history", spec_name, "rev", "result-depends-on-earlier-calls",
+                                                dict(spec=spec_name, order=name), dict(spec=spec_name, leaf=i, limit=limit, order=name), dict(call=key),
+                                                got, want, "# %s: gradient of leaf %d (%s) differs between a fresh interpreter and %s of the same primitive" % (spec_name, i, key, name)))
+    rep.cov["catalogue_history_leaves_run_in_both_orders"] = ncat
+    rep.cov["catalogue_history_leaves_rerun_in_fresh_forks"] = nalone
     rep.add(evaluations=ntrans, states=len(seen), transitions=ntrans, traces_validated_against_impl=ntrans,
             distinct_nontrivial=len(distinct_obs), samples=samples, events=len(evs), bfs_depth=depth,
             new_states_per_level=nstates_by_level, failing_transitions=nfail, caught_fault_transitions=ncaught,
@@ -505,6 +614,10 @@ def run(ctx):
 def replay(ctx, v):
     lib()
     c = v["choices"]
+    if "spec" in c:
+        with fresh_pool(1) as pool:
+            spec_name, n, na, bad = pool.apply(catalog_history_job, ((c["spec"], c["limit"], 6),))
+        return v if any(b[1] == c["leaf"] for b in bad) else None
     h = c.get("history")
     if h is None:
         h = [c["history_repeat"][0]] * c["history_repeat"][1]
